@@ -27,14 +27,16 @@ RULE = ("11 aliasable term kinds x 9 clause positions x 10 classes exhaustively 
 
 KINDS = {
     "field": ["t.a", "t.x"],
-    "arith": ["(t.a + 1)", "(t.a * (t.b - 2))"],
-    "function": ["fn.Upper(t.c)", "fn.Coalesce(t.a, t.b, 0)"],
+    # (third shapes: an operand that carries an alias of its own — `zin` — which is never printed inside the larger expression)
+    "arith": ["(t.a + 1)", "(t.a * (t.b - 2))", "(t.a.as_('zin') + 1)"],
+    "function": ["fn.Upper(t.c)", "fn.Coalesce(t.a, t.b, 0)", "fn.Upper(t.c.as_('zin'))"],
     "aggregate": ["fn.Sum(t.a)", "fn.Count(t.b).distinct()"],
     "analytic": ["an.Rank().over(t.b).orderby(t.a)", "an.Sum(t.a).over(t.b)"],
-    "case": ["Case().when(t.a > 1, 'big').else_('small')", "Case().when(t.a.isnull(), t.b).when(t.b > 2, t.a)"],
+    "case": ["Case().when(t.a > 1, 'big').else_('small')", "Case().when(t.a.isnull(), t.b).when(t.b > 2, t.a)",
+             "Case().when(t.a > 1, t.b.as_('zin')).else_('small')"],
     "subquery": ["Query.from_(u).select(fn.Max(u.a))", "{Q}.from_(u).select(u.b).where(u.a == 1)"],
-    "negative": ["(-t.a)", "(-(t.a + t.b))"],
-    "comparison": ["(t.a == 1)", "(t.a > t.b)"],
+    "negative": ["(-t.a)", "(-(t.a + t.b))", "(-(t.a.as_('zin')))"],
+    "comparison": ["(t.a == 1)", "(t.a > t.b)", "(t.a.as_('zin') == 1)"],
     "boolean": ["((t.a == 1) & (t.b == 2))", "((t.a > 1) | t.b.isnull())"],
     "mod_pow": ["(t.a % 3)", "(t.a ** 2)"],
     # alias given to the constructor instead of .as_()
@@ -67,6 +69,10 @@ def generate(rng, n, tier):
                 yield {"cls": cls, "kind": kind, "shape": 0, "positions": ["setop_orderby"], "alias": "al", "setop": op}
                 # … and not to an alias that no operand selects (the term itself is then the ORDER BY key)
                 yield {"cls": cls, "kind": kind, "shape": 0, "positions": ["setop_orderby"], "alias": "al", "setop": op, "unselected": True}
+    # GROUP BY <aliased term> inside the operands of a set operation: alias use follows the statement's class there too
+    for cls in QNAMES:
+        for kind in ("field", "arith", "function"):
+            yield {"cls": cls, "kind": kind, "shape": 0, "positions": ["setop_groupby"], "alias": "al"}
     # a star select removes (or blocks) the aliased column: GROUP BY / ORDER BY must then refer to the column, not the alias
     for cls in QNAMES:
         for variant in range(4):
@@ -123,6 +129,10 @@ def build(case):
                  ".select(e, fn.Sum(t.x).as_('s')).groupby(e)"][case.get("variant", 0)]
         lines.append("q = %s.from_(t)%s" % (qn, chain))
         return "\n".join(lines)
+    if pos == ["setop_groupby"]:
+        lines.append("q = %s.from_(t).select(e, fn.Sum(t.x).as_('s')).groupby(e).union_all("
+                     "%s.from_(u).select(u.a.as_(%r), fn.Sum(u.x).as_('s')).groupby(u.a.as_(%r)))" % (qn, qn, case["alias"], case["alias"]))
+        return "\n".join(lines)
     if pos == ["setop_orderby"] and case.get("unselected"):
         lines.append("q = %s.from_(t).select(t.b, t.a).%s(%s.from_(u).select(u.b, u.a)).orderby(e)"
                      % (qn, case.get("setop", "union"), qn))
@@ -156,6 +166,8 @@ def examine(case):
         return examine_star(dict(case, positions=pos))
     if pos == ["same_name"]:
         return examine_same_name(dict(case, positions=pos))
+    if pos == ["setop_groupby"]:
+        return examine_setop_groupby(dict(case, positions=pos))
     selected = any(p in pos for p in ("select", "groupby_sel", "orderby_sel"))
     if selected:
         pos = [p for p in pos if p not in ("groupby_unsel", "orderby_unsel")] + \
@@ -202,6 +214,8 @@ def examine(case):
     except sqlspec.LexError as ex:
         F("lex", "unlexable: %s" % ex)
         return res
+    if any(t.kind == "id" and t.val == "zin" for t in toks):
+        F("inner-alias-printed", "the alias of an operand is printed inside the larger expression")
     occ = [i for i, t in enumerate(toks) if t.kind == "id" and t.val == alias]
     # expected number of occurrences: one definition if selected, one reference per GROUP BY / ORDER BY use when selected
     gb_alias_ok = cls not in ("oracle", "mssql")
@@ -321,6 +335,35 @@ def examine_setop(case):
                                  "what": "alias %s quoted %r, the %s alias convention is %r | %s"
                                          % ("reference in ORDER BY" if i == 2 else "definition", t.quote, cls, aq, text)})
             break
+    return res
+
+
+def examine_setop_groupby(case):
+    """GROUP BY an aliased selected term inside both operands of a set operation"""
+    res = Result()
+    src = build(case)
+    case["recipe"] = src
+    q = ns.ex(src)["q"]
+    text = str(q)
+    cls = case["cls"]
+    res.nontrivial = True
+    res.key = struct_hash(["setop-groupby", case["kind"], cls])
+    res.tags = ["kind=" + case["kind"], "cls=" + cls, "pos=setop_groupby"]
+    try:
+        res.requests.append(({"op": "render", "ctx": describe.d_ctx({}), "term": describe.describe(q)}, {"sql": text}, "str(set operation)"))
+    except Unsupported as ex:
+        res.skipped = str(ex)[:40]
+    try:
+        toks = sqlspec.lex(text, ident_quotes='"`')
+    except sqlspec.LexError as ex:
+        res.findings.append({"sig": {"kind": "lex", "term": case["kind"]}, "what": "unlexable: %s | %s" % (ex, text)})
+        return res
+    occ = [t for t in toks if t.kind == "id" and t.val == case["alias"]]
+    want = 2 + (0 if cls in ("oracle", "mssql") else 2)
+    if len(occ) != want:
+        res.findings.append({"sig": {"kind": "alias-count", "term": case["kind"], "where": "setop-groupby"},
+                             "what": "alias occurs %d times, expected %d (2 definitions%s) | %s"
+                                     % (len(occ), want, "" if want == 2 else " + 2 GROUP BY references", text)})
     return res
 
 
